@@ -219,6 +219,7 @@ def oracle(c, o):
 # ---------------------------------------------------------------- session level: a peer that never answers (stack.rs hbpeer)
 # PING + timeout lies beyond the session's 1 s minimum lifespan (SessionRegulator keeps a failed session's stream open until then)
 HB_IVL, HB_TMO = 500, 700
+STALL_AT = 250      # the hanging peer's backlog is queued mid-interval, so the last write stamp is unambiguous for the ticks
 
 
 def session_cases(tier):
@@ -228,12 +229,16 @@ def session_cases(tier):
     combos = [("DEALER", "ROUTER", "idle"), ("DEALER", "ROUTER", "app_writes"), ("PULL", "PUSH", "peer_data"), ("DEALER", "ROUTER", "peer_data")]
     if tier != "quick":
         combos += [("DEALER", "ROUTER", "app_writes"), ("PULL", "PUSH", "idle"), ("SUB", "PUB", "peer_data")]
+    # a peer that HANGS (never reads) while the application has a backlog pending: the egress buffer is non-empty at every tick
+    combos += [("DEALER", "ROUTER", "stalled")] + ([("PUSH", "PULL", "stalled")] if tier != "quick" else [])
     for (stype, peer, mode) in combos:
         hs = E.greeting("NULL", 0) + E.ready(peer)
         data = E.frame([0x55] * 12) if stype != "DEALER" else E.frame([], more=True) + E.frame([0x55] * 12)
         out.append({"k": "hbpeer", "stype": stype, "peer": peer, "mode": mode, "period_ms": 100, "observe_ms": 3600,
                     "opts": {"HEARTBEAT_IVL": HB_IVL, "HEARTBEAT_TIMEOUT": HB_TMO}, "hs": [E.raw(hs)], "data": [E.raw(data)],
                     "threads": 2})
+        if mode == "stalled":
+            out[-1].update({"backlog_at_ms": STALL_AT, "backlog": 64, "backlog_size": 262144})
     return out
 
 
@@ -241,6 +246,15 @@ def session_timeline(c):
     """the nominal timeline handed to the model (ms): handshake bytes at 5, ticks every HEARTBEAT_IVL, after the first PING
     its own write, then the scenario's traffic every period, the backstop polled after every event and at its deadline"""
     evs = [("net", c["hs"], 5)]
+    if c["mode"] == "stalled":
+        # the writes that still succeed (kernel buffers filling) happen right after the backlog is queued; afterwards
+        # nothing is written: ticks every HEARTBEAT_IVL, the PING's own write never completes, the backstop is polled
+        evs.append(("wrote", STALL_AT + 30))
+        for t in range(HB_IVL, c["observe_ms"], 100):
+            if t % HB_IVL == 0:
+                evs.append(("tick", t))
+            evs.append(("deadline", t))
+        return evs
     ping = None
     t = 0
     horizon = c["observe_ms"]
@@ -279,6 +293,20 @@ def session_oracle(c, o):
     after the last activity (the handshake), and the connection closed if no PONG arrives within HEARTBEAT_TIMEOUT of that
     PING - whatever else is written or received meanwhile"""
     r = o["rows"][0]
+    if c["mode"] == "stalled":
+        if r[0] != 96 or len(r) != 4:
+            return "scenario crashed or hung: %s" % o
+        _, closed, cms, acc = r
+        if acc < 8:
+            return None         # no backlog could be queued: nothing to judge
+        if not closed:
+            return ("a peer that hangs (never reads) while %d accepted messages are pending was still connected %d ms after the "
+                    "last write (HEARTBEAT_IVL %d, HEARTBEAT_TIMEOUT %d): never probed / never dropped" % (acc, c["observe_ms"] - STALL_AT, HB_IVL, HB_TMO))
+        if cms + 100 < STALL_AT + HB_IVL + HB_TMO:
+            return "hanging peer dropped %d ms after the handshake, before HEARTBEAT_IVL + HEARTBEAT_TIMEOUT after the last write" % cms
+        if cms > STALL_AT + 100 + 2 * HB_IVL + HB_TMO + 350:
+            return "hanging peer dropped only %d ms after the handshake (later than two intervals + timeout after the last write)" % cms
+        return None
     if r[0] != 97 or len(r) != 6:
         return "scenario crashed or hung: %s" % o
     _, pinged, closed, ping_ms, win, sent = r
@@ -299,7 +327,7 @@ def session_oracle(c, o):
 
 
 def session_strip(c):
-    return {k: c[k] for k in ("k", "stype", "mode", "period_ms", "observe_ms", "opts", "hs", "data", "threads")}
+    return {k: c[k] for k in ("k", "stype", "mode", "period_ms", "observe_ms", "opts", "hs", "data", "threads", "backlog_at_ms", "backlog", "backlog_size") if k in c}
 
 
 def main(argv):
@@ -328,7 +356,7 @@ def main(argv):
         res.count("session:%s:%s" % (c["stype"], c["mode"]))
     C.differential(res, PROP, "stack", scs, session_coq, E.REQ, "hbs_mismatches",
                    "(fun '(c, es, i, lo, hi) => hb_session_model c es)", session_oracle,
-                   nontrivial=lambda c, o: o["rows"][0][0] == 97 and o["rows"][0][1] == 1,
+                   nontrivial=lambda c, o: (o["rows"][0][0] == 97 and o["rows"][0][1] == 1) or (o["rows"][0][0] == 96 and o["rows"][0][1] == 1),
                    theorems_note="C19_session_timeout_not_early, C19_session_dead_peer_closed_at_deadline, C19_session_dead_peer_closed_despite_traffic",
                    strip=session_strip, tag="session", shards=2)
     return res.finish(assumptions=[
